@@ -13,9 +13,9 @@ def numTok (start : Cur) (k : Kind) (lex r : Bytes) : Step :=
          line := start.line, col := colOf start.endR start.ls } r (start.adv lex.length lex.length)
 
 /-- a model step agrees with an optional (kind, lexeme, rest) of the specification -/
-def Matches (st : Step) (start : Cur) (o : Option (Kind × List Cp × List Cp)) : Prop :=
+def Matches (st : Step) (start : Cur) (rest0 : Bytes) (o : Option (Kind × List Cp × List Cp)) : Prop :=
   match o with
-  | some (k, lex, r) => st = numTok start k lex r
+  | some (k, lex, r) => st = numTok start k lex r ∧ rest0 = lex ++ r
   | none => ∃ e, st = .err e
 
 /-- the look-ahead restriction applied to a candidate lexeme -/
@@ -35,7 +35,7 @@ theorem numFin_spec (start : Cur) (rest0 : Bytes) (n : Nat) (r : Bytes) (f : Boo
     Matches (if numFollowBad r then mkErr (start.adv n n) (msgExpectedDigit r) else
       Step.tok { kind := if f then .float else .int, value := rest0.take n,
                  start := start.endR, stop := start.endR + n, line := start.line,
-                 col := colOf start.endR start.ls } r (start.adv n n)) start
+                 col := colOf start.endR start.ls } r (start.adv n n)) start rest0
       (finS (if f then .float else .int) x r) := by
   rw [numFollowBad_eq]
   unfold finS
@@ -76,7 +76,7 @@ theorem followOk_e (b : Nat) (t : Bytes) (hb : b = 101 ∨ b = 69) : numberFollo
 
 theorem numExp_spec (start : Cur) (rest0 : Bytes) (n : Nat) (r : Bytes) (f : Bool) (x : Bytes)
     (hx : rest0 = x ++ r) (hn : x.length = n) :
-    Matches (numExp start rest0 n r f) start
+    Matches (numExp start rest0 n r f) start rest0
       (match exponentPart r with
        | some (ep, r2) => finS .float (x ++ ep) r2
        | none => finS (if f then .float else .int) x r) := by
@@ -169,7 +169,7 @@ theorem fractionalPart_nodot (r : Bytes) (h : ∀ t, r = 46 :: t → False) : fr
 
 theorem numFrac_spec (start : Cur) (rest0 : Bytes) (n : Nat) (r : Bytes) (x : Bytes)
     (hx : rest0 = x ++ r) (hn : x.length = n) :
-    Matches (numFrac start rest0 n r) start (numTail x r) := by
+    Matches (numFrac start rest0 n r) start rest0 (numTail x r) := by
   unfold numFrac numTail
   split
   · rename_i t
@@ -226,7 +226,7 @@ theorem intTail_cons (sg : List Cp) (d : Nat) (r : List Cp) (hd : d ≠ 48) :
 
 theorem readNumberCore_spec (start : Cur) (rest0 : Bytes) (n1 : Nat) (r1 : Bytes) (x : Bytes)
     (hx : rest0 = x ++ r1) (hn : x.length = n1) :
-    Matches (readNumberCore start rest0 n1 r1) start (intTail x r1) := by
+    Matches (readNumberCore start rest0 n1 r1) start rest0 (intTail x r1) := by
   unfold readNumberCore
   split
   · rename_i t
@@ -306,7 +306,7 @@ theorem numberToken_intTail (cs : List Cp) :
 /-- `readNumber` produces exactly the Int/Float token of the specification (kind, lexeme, rest)
     and fails exactly when the specification admits no number at this place. -/
 theorem readNumber_spec (start : Cur) (rest0 : Bytes) :
-    Matches (readNumber start rest0) start (numberToken rest0) := by
+    Matches (readNumber start rest0) start rest0 (numberToken rest0) := by
   rw [numberToken_intTail]
   unfold readNumber
   apply readNumberCore_spec
